@@ -759,6 +759,42 @@ def scripted(big=False):
                             O('write', f='f1', n=1), O('close_file', f='f1'), O('iterate', d='d1'), O('close_dir', d='d1')] + epilogue()
         add('S32-' + gname, img, ops, upc)
 
+    # S33: the entry in the last slot of a directory block deleted while the directory goes on in the next block (nothing created
+    # there afterwards): sub-directories (slot 15 is the 14th file) and a FAT16 root, then a fresh mount
+    for gname in ['G16a', 'G32a', 'G16c', 'G16g']:
+        img = image_of(gname, tree='T0', nfree=4)
+        nroot = len([x for x in img[0]['vols'][0]['root']])
+        ops = prologue() + [O('mkdir', d='d0', name='EDGE'), O('open_dir', d='d0', name='EDGE', as_='d1')]
+        for i in range(19):
+            ops += [O('open_file', d='d1', name='E%02d.TXT' % i, mode='Create', as_='f0'), O('close_file', f='f0')]
+        ops += [O('open_file', d='d1', name='E15.TXT', mode='Append', as_='f1'), O('delete', d='d1', name='E13.TXT'), O('iterate', d='d1'), O('find', d='d1', name='E14.TXT'),
+                O('write', f='f1', n=1), O('close_file', f='f1'), O('delete', d='d1', name='E14.TXT'), O('delete', d='d1', name='E12.TXT'), O('iterate', d='d1'),
+                O('lookup_all', d='d1'), O('close_dir', d='d1')]
+        if not img[0]['vols'][0]['fat32'] and img[0]['vols'][0]['root_entries'] >= 32:
+            # the same in the root directory: fill it up to slot 17, delete what sits in slot 15
+            k = 0
+            while nroot + 1 + k < 18:
+                ops += [O('open_file', d='d0', name='R%02d.TXT' % k, mode='Create', as_='f0'), O('close_file', f='f0')]
+                k += 1
+            ops += [O('iterate', d='d0')] + [O('delete', d='d0', name='R%02d.TXT' % j) for j in range(max(0, k - 4), k - 1)] + [O('iterate', d='d0'), O('lookup_all', d='d0')]
+        add('S33-' + gname, img, ops + epilogue(), img[1])
+
+    # S34: a FAT32 volume whose root directory does not start at cluster 2 while an ordinary directory does: `..` of that
+    # directory's children leads to it (not to the root), `..` of the directory itself to the root
+    for gname in ['G32b', 'G32a']:
+        v, upc, bounds = geom(gname, tree='T0', nfree=3)
+        v['root_cluster'] = 5
+        v['root'] = [d('TWO', [2], [f('IN2.TXT', [4], 1), d('KID', [3], [f('K.BIN', [6], 1)])]), f('TOP.TXT', [7], 1)]
+        v['window'] = sorted(set(v['window'] + [2, 3, 4, 5, 6, 7]))
+        ops = prologue() + [O('open_dir', d='d0', name='TWO', as_='d1'), O('open_dir', d='d1', name='KID', as_='d2'), O('open_dir', d='d2', name='..', as_='d3'),
+                            O('iterate', d='d3'), O('find', d='d3', name='KID'), O('find', d='d3', name='TOP.TXT'), O('lookup_all', d='d3'),
+                            O('open_file', d='d3', name='IN2.TXT', mode='ReadOnly', as_='f0'), O('read', f='f0', n=1), O('close_file', f='f0'),
+                            O('open_dir', d='d3', name='..', as_='d4'), O('iterate', d='d4'), O('find', d='d4', name='TOP.TXT'),
+                            O('change_dir', d='d2', name='..'), O('iterate', d='d2'), O('open_file', d='d2', name='NEW.TXT', mode='Create', as_='f1'), O('write', f='f1', n=1),
+                            O('close_file', f='f1'), O('iterate', d='d1'), O('mkdir', d='d2', name='MK'), O('open_dir', d='d2', name='MK', as_='d5'), O('open_dir', d='d5', name='..', as_='d6'),
+                            O('iterate', d='d6'), O('close_dir', d='d6'), O('close_dir', d='d5'), O('close_dir', d='d4'), O('close_dir', d='d3'), O('close_dir', d='d2'), O('close_dir', d='d1')] + epilogue()
+        add('S34-' + gname, (dict(vols=[v]), upc, bounds), ops, upc, lim=(8, 8, 4))
+
     # S7: several volumes at once
     img = image_multi()
     upc = img[1]
